@@ -11,7 +11,7 @@ ID = 'C20'
 LEVEL = 'exploration'
 RULE = (
     'Generated plans: semaphore_limit L 1-3, scope global/class/self over 2 classes x 3 instances, two decorated functions sharing one semaphore_name, 2-8 callers per '
-    'session with start times, body durations, outcomes (return, raise with retries, attempt timeouts), cancellation '
+    'session with start times, body durations, outcomes (return, raise with retries, attempt timeouts), bodies that need time to unwind when cut off, cancellation '
     'while waiting or running or a few loop ticks after the call (the system-overload check is made due on every call), semaphore_timeout (None or off-grid), lax on/off; 1-3 successive virtual-time event '
     'loops in one process re-using the same semaphore name. Oracle: per scope key, bodies in progress that did not wait '
     'the full acquisition timeout never exceed L; a caller whose scope has a free slot starts at its call instant; a '
@@ -49,6 +49,7 @@ def _case(draw):
                 'cancel': draw(st.one_of(st.none(), st.none(), st.integers(0, 300).map(lambda k: k / 8 + 1 / 64))),
                 # cancellation a few event-loop ticks after the call was issued (between acquiring the slot and running the body)
                 'cancel_ticks': draw(st.one_of(st.none(), st.none(), st.none(), st.integers(1, 6))),
+                'u': draw(st.sampled_from([0, 0, 0.25, 0.5])),  # time the body needs to unwind when it is cancelled (cut off / caller cancelled)
                 'fn': draw(st.sampled_from([0, 0, 1])),  # which of two decorated functions sharing the semaphore name is called
             })
         sessions.append(callers)
@@ -101,6 +102,7 @@ def _run_case(c, retry):
 
     semto = c['sem_timeout'] if c['sem_timeout'] is not None else max(c['timeout'], c['timeout'] * (L - 1))
     live = collections.Counter()
+    running = collections.Counter()
     inflight = collections.Counter()
 
     deco = retry(wait=0.125, retries=c['retries'], timeout=c['timeout'], semaphore_limit=L, semaphore_name=name, semaphore_lax=c['lax'], semaphore_scope=c['scope'], semaphore_timeout=c['sem_timeout'])
@@ -121,10 +123,26 @@ def _run_case(c, retry):
                 if live[k] > L:
                     viol.append(('C20.a', f'{live[k]} bodies in progress in scope {c["scope"]} key {k!r} with semaphore_limit={L} (none of them after an acquisition timeout)'))
         rec['attempts'] = rec.get('attempts', 0) + 1
-        await asyncio.sleep(rec['d'])
-        if rec['out'] == 'raise':
-            raise ValueError('x')
-        return 'ok'
+        # executions of the wrapped function that are really in progress (an attempt that was cut off or cancelled and is still
+        # unwinding is in progress): counted per attempt, from its first to its last statement
+        counts = bool(rec.get('holds'))
+        if counts:
+            running[k] += 1
+            if running[k] > L:
+                viol.append(('C20.a', f'{running[k]} executions of the wrapped function in progress at once in scope {c["scope"]} key {k!r} with semaphore_limit={L} (an earlier attempt was still unwinding when its slot was handed on / the next attempt started)'))
+        try:
+            try:
+                await asyncio.sleep(rec['d'])
+            except asyncio.CancelledError:
+                if rec.get('u'):
+                    await asyncio.sleep(rec['u'])  # cleanup that needs time
+                raise
+            if rec['out'] == 'raise':
+                raise ValueError('x')
+            return 'ok'
+        finally:
+            if counts:
+                running[k] -= 1
 
     # two different decorated functions that name the SAME semaphore (README: semaphore_name is how functions share one): within one
     # scope they share the L slots
@@ -155,7 +173,7 @@ def _run_case(c, retry):
                 o = objs[cl['obj']]
                 # callers that have called and not finished yet (holding, waiting or about to acquire): if fewer than L,
                 # a slot is free for this caller whatever the others do
-                rec = {'call': loop.time(), 'd': cl['d'], 'out': cl['out'], 'key': key(o), 'free_at_call': inflight[key(o)] < L, 'fn': cl.get('fn', 0)}
+                rec = {'call': loop.time(), 'd': cl['d'], 'out': cl['out'], 'key': key(o), 'free_at_call': inflight[key(o)] < L, 'fn': cl.get('fn', 0), 'u': cl.get('u', 0)}
                 inflight[key(o)] += 1
                 recs.append(rec)
                 t = asyncio.ensure_future(run_call(o, rec))
